@@ -2,7 +2,7 @@ PROP = dict(
         coq="Properties/C04.v",
         workloads=[
             dict(name="liquidity-custody", go_test="TestC04", runner="C04",
-                 env=dict(quick=dict(VERIF_CASES=40), thorough=dict(VERIF_CASES=1500))),
+                 env=dict(quick=dict(VERIF_CASES=30), thorough=dict(VERIF_CASES=800))),
         ],
         rule="case = (3 apps, 1-3 pairs per app, basic pools on 85% and ranged pools on 35% of the pairs, then 3-8 batches of 10-40 ops: 45% pool ops "
              "(deposit / withdraw / farm / unfarm / deposit-and-farm / unfarm-and-withdraw / extra pool creation by 5 liquidity providers, amounts from "
